@@ -20,4 +20,6 @@ def run(ctx):
     obs += [o for o in cp.sep_rule(ctx, 'C17') if '/owners/' in o['key']]
     # the options are read-only while a sheet is compiled (wave 9; shared by C08, C09, C10, C17)
     obs += cp.options_untouched_rule(ctx, 'C17')
+    # every rewrite works on tokens: no source text is copied into the output (wave 10; shared by the stylesheet packs)
+    obs += cp.tokens_only_rule(ctx, 'C17')
     return obs
